@@ -260,6 +260,11 @@ def one_stream(s, rng, flags, ctype, jid, pw, cert, sm_resumable):
     if ctype == "r":
         # raw connection: the application drives; feed something anyway
         send(s.header())
+        if rng.random() < 0.5:
+            # the application starts TLS itself (xmpp_conn_tls_start)
+            if rng.random() < 0.3:
+                ops.append("tls " + rng.choice(["fail", "nonew"]))
+            ops += ["utls", "tls ok", "run"]
         send("<message id='r1'/>")
         return
     if ctype == "k":
@@ -276,6 +281,17 @@ def one_stream(s, rng, flags, ctype, jid, pw, cert, sm_resumable):
     if rng.random() < 0.5:
         mechs = rng.choice([["PLAIN"], ["SCRAM-SHA-1", "PLAIN"], ["DIGEST-MD5"], ["SCRAM-SHA-256-PLUS", "SCRAM-SHA-256"],
                             ["ANONYMOUS"], ["EXTERNAL", "PLAIN"], []])
+    if rng.random() < 0.07:
+        # the stream header arrives, the features do not (in time): the features time-out decides
+        send(s.header())
+        ops += ["tick %d" % rng.choice([14999, 15000, 15000, 15001, 20000]), "run", "run"]
+        if rng.random() < 0.6:
+            send(rng.choice(["<iq type='result' id='_xmpp_auth1'/>", "<iq type='error' id='_xmpp_auth1'/>"]))
+        if rng.random() < 0.5:
+            send(s.features(starttls=offer_tls, mechs=mechs))          # late features
+            ops.append("run")
+        traffic(s, rng, False)
+        return
     send(s.header() + s.features(starttls=offer_tls, mechs=mechs if rng.random() < 0.9 else None,
                                  unknown=rng.random() < 0.2, required=rng.random() < 0.3))
     if offer_tls and not (flags & F_DISABLE_TLS):
